@@ -874,6 +874,17 @@ def rocc(repo: Repo, chk: Check) -> None:
         dname = ast.unparse(t.value)
         own = norm.contains(src, T(f"infer_state_of({op_p}.in_state)"))
         guard = has_fact(s, [f"{k1} not in {dname}"]) is not None
+        if not guard and isinstance(t.slice, ast.Name):
+            # the key is drawn from a collection that only holds keys missing from the dictionary
+            for lp in [l for l in s.loops if isinstance(l, ast.For) and isinstance(l.target, ast.Name) and l.target.id == t.slice.id]:
+                dom_ = fl.cone(lp.iter, s, inline=2)
+                for comp in [c for c in ast.walk(dom_) if isinstance(c, (ast.ListComp, ast.SetComp, ast.GeneratorExp))]:
+                    for gen in comp.generators:
+                        for cnd in gen.ifs:
+                            for at in norm.atoms(cnd, True):
+                                m_ = norm.match(T("$e not in $d"), at, {"d": dname})
+                                if m_ is not None and ast.dump(norm.canon(m_["e"])) == ast.dump(norm.canon(comp.elt)):
+                                    guard = True
         chk.result(k1 == k2 and own and guard, "C04.rocc-pairs", f"{key}:fill:{k1}", s.where(),
                    f"{dname}[{k1}] is filled from the traced in-state under the same key, only when the op does not set it",
                    f"partner fill {ast.unparse(st)[:100]}: same key={k1 == k2}, from this op's in_state={own}, guarded by `{k1} not in {dname}`={guard}",
@@ -907,8 +918,11 @@ def rocc(repo: Repo, chk: Check) -> None:
                "pairs are built as (.rs1, .rs2), passed as (pair[0], pair[1]) and emitted as ($0, $1)",
                f"operand order broken: pair built (rs1, rs2)={pair_ok}, passed in order={order_ok}, emitted in order={asm_ok}")
     # combine_pairs_to_ops emits one instruction per .rs1 entry with that entry's funct7
-    emits = [n for n in ast.walk(comb.node) if isinstance(n, ast.For)]
-    one = len(calls) == 1 and len(emits) == 1 and any(norm.contains(emits[0].iter, T("$n.endswith('.rs1')")) for _ in [0])
+    cfl2 = Flow(comb, repo)
+    emits = [n.iter for n in ast.walk(comb.node) if isinstance(n, ast.For)] + [
+        g_.iter for n in ast.walk(comb.node) if isinstance(n, (ast.ListComp, ast.GeneratorExp)) and any(
+            isinstance(c, ast.Call) and callee_name(c) == "get_rocc_inline_asm" for c in ast.walk(n.elt)) for g_ in n.generators]
+    one = len(calls) == 1 and len(emits) == 1 and norm.contains(cfl2.cone(emits[0], None, inline=0), T("$n.endswith('.rs1')"))
     chk.result(one, "C04.rocc-pairs", f"{ROCC}:one-insn", comb.where, "one instruction is emitted per declared instruction (per .rs1 entry of the declaration passed in)",
                "combine_pairs_to_ops no longer emits exactly one instruction per .rs1 entry")
     # defaults for a first setup
@@ -919,13 +933,16 @@ def rocc(repo: Repo, chk: Check) -> None:
     detail = "no create_pairs call"
     for s in cps:
         arg = s.node.args[0]  # type: ignore[attr-defined]
-        cone = lfl.cone(arg, s, inline=0)
-        new = [m for _, m in norm.find(T("accfg.SetupOp($vals, $names, $acc)"), cone)] + [m for _, m in norm.find(T("SetupOp($vals, $names, $acc)"), cone)]
-        detail = ast.unparse(cone)[:200]
-        for m in new:
-            names = lfl.cone(m["names"], s, inline=0)
-            if norm.contains(names, T("$i + '.rs1'")) and norm.contains(names, T("$i + '.rs2'")):
-                dom = True
+        for inl in (0, 3):  # as written; then looking through helpers that build the op
+            cone = lfl.cone(arg, s, inline=inl)
+            new = [m for _, m in norm.find(T("accfg.SetupOp($vals, $names, $acc)"), cone)] + [m for _, m in norm.find(T("SetupOp($vals, $names, $acc)"), cone)]
+            detail = ast.unparse(cone)[:200]
+            for m in new:
+                names = norm.unroll_literal_generators(lfl.cone(m["names"], s, inline=inl))
+                if norm.contains(names, T("$i + '.rs1'")) and norm.contains(names, T("$i + '.rs2'")):
+                    dom = True
+            if dom:
+                break
     none_guard = any(
         isinstance(n, ast.If) and norm.any_match([f"{sp}.in_state is None", f"not {sp}.in_state"], norm.canon(n.test)) is not None
         for n in ast.walk(ls.node)
